@@ -2,6 +2,7 @@ import Lean.Data.Json
 import Sismic.Model.World
 import Sismic.Model.Edit
 import Sismic.Model.IO
+import Sismic.Spec.Legal
 /-!
 # Sismic.Json — the line protocol between the Python harness and the model driver
 (decoding of cases, encoding of observations; no logic)
@@ -214,6 +215,7 @@ def ofSlot (s : Slot) : Json :=
               ("ctx", .arr ((sortPairs s.st.ctx.vars).map (fun p => Json.arr #[.str p.1, ofVal p.2])).toArray),
               ("time", ofInt s.st.time),
               ("final", .bool (s.st.initialized && s.st.config.isEmpty)),
+              ("legal", .bool (s.st.config.isEmpty || legalB s.chart s.st.config)),
               ("unsupported", .bool s.st.ctx.unsupported)]
 
 def ofWorld (w : World) : Json :=
